@@ -12,9 +12,11 @@ from vlib.common import DirLock, base_env, log  # noqa: E402
 def main():
     os.makedirs(os.path.join(common.BUILD, "logs"), exist_ok=True)
     rc = 0
+    from vlib import index, kani
+    hd = kani.prepare_harness_dir(index.for_property("C14", "quick"), "prime")
     with DirLock("kt", common.N_TARGET_DIRS) as target:
         env = base_env()
-        env["DUST_DDS_VERIF_HARNESS_DIR"] = common.HARNESS_DIR
+        env["DUST_DDS_VERIF_HARNESS_DIR"] = hd
         p = subprocess.run(["cargo", "kani", "--target-dir", target, "--only-codegen"], cwd=common.CRATE, env=env,
                            stdout=subprocess.PIPE, stderr=subprocess.STDOUT, text=True)
         log("kani codegen prime rc=%d" % p.returncode)
